@@ -27,6 +27,7 @@ type VC struct {
 	heapSorts   map[string]*Sort // heap key -> array sort
 	funcsByKey  map[string]*ssa.Function
 	effects     map[*ssa.Function]map[string]bool
+	effVia      map[*ssa.Function]map[string]map[int]bool
 	effBusy     map[*ssa.Function]bool
 	globalInit  map[*ssa.Global]ssa.Value
 }
@@ -51,7 +52,7 @@ func LoadProgram(repo string) (*VC, error) {
 	prog.Build()
 	vc := &VC{repo: repo, prog: prog, fset: prog.Fset, pkgs: map[string]*ssa.Package{}, pkgDir: map[*ssa.Package]string{},
 		structSorts: map[string]*Sort{}, heapSorts: map[string]*Sort{}, funcsByKey: map[string]*ssa.Function{},
-		effects: map[*ssa.Function]map[string]bool{}, effBusy: map[*ssa.Function]bool{}, globalInit: map[*ssa.Global]ssa.Value{}}
+		effects: map[*ssa.Function]map[string]bool{}, effVia: map[*ssa.Function]map[string]map[int]bool{}, effBusy: map[*ssa.Function]bool{}, globalInit: map[*ssa.Global]ssa.Value{}}
 	for i, p := range pkgs {
 		if spkgs[i] == nil {
 			continue
@@ -122,6 +123,11 @@ func (vc *VC) contractOf(fn *ssa.Function) *Contract {
 		if c := vc.cs.Lookup(d, FuncKey(fn)); c != nil {
 			return c
 		}
+		if fn.Origin() != nil {
+			if c := vc.cs.Lookup(d, FuncKey(fn.Origin())); c != nil {
+				return c
+			}
+		}
 		return nil
 	}
 	// extern: full name
@@ -171,6 +177,12 @@ func (vc *VC) sortOf(t types.Type) *Sort {
 	if isErrorType(t) {
 		return SBool
 	}
+	if tp, ok := t.(*types.TypeParam); ok {
+		if numericConstraint(tp) {
+			return SReal // ordered numeric type parameter: values compared as reals
+		}
+		return SAny
+	}
 	switch u := t.Underlying().(type) {
 	case *types.Basic:
 		switch {
@@ -206,6 +218,9 @@ func (vc *VC) sortOf(t types.Type) *Sort {
 		}
 		return ts
 	case *types.TypeParam:
+		if numericConstraint(u) {
+			return SReal // ordered numeric type parameter: values compared as reals
+		}
 		return SAny
 	}
 	panic(unsupported{"type " + t.String()})
@@ -222,6 +237,27 @@ func (vc *VC) structDecls() string {
 		sb.WriteString("))))\n")
 	}
 	return sb.String()
+}
+
+// numericConstraint: every type in the constraint's type set is numeric.
+func numericConstraint(tp *types.TypeParam) bool {
+	iface, ok := tp.Constraint().Underlying().(*types.Interface)
+	if !ok || iface.NumEmbeddeds() == 0 {
+		return false
+	}
+	for i := 0; i < iface.NumEmbeddeds(); i++ {
+		u, ok := iface.EmbeddedType(i).(*types.Union)
+		if !ok {
+			return false
+		}
+		for j := 0; j < u.Len(); j++ {
+			b, ok := u.Term(j).Type().Underlying().(*types.Basic)
+			if !ok || b.Info()&types.IsNumeric == 0 {
+				return false
+			}
+		}
+	}
+	return true
 }
 
 // intRange returns the value range of a Go integer type.
@@ -265,77 +301,187 @@ func (vc *VC) position(p token.Pos) string {
 // --------------------------------------------------------------- effects
 
 // effectsOf computes the set of heap keys a function may write through
-// references it did not allocate itself (transitively over repository callees).
+// references it did not allocate itself (transitively over repository
+// callees).  Writes are tracked per parameter they go through, so that a
+// caller passing a locally allocated object is not charged with the effect.
 func (vc *VC) effectsOf(fn *ssa.Function) map[string]bool {
-	if e, ok := vc.effects[fn]; ok {
+	eff := map[string]bool{}
+	for k := range vc.effectsVia(fn) {
+		eff[k] = true
+	}
+	return eff
+}
+
+// effectsVia: heap key -> set of parameter indices the written object comes from (-1: unknown origin).
+func (vc *VC) effectsVia(fn *ssa.Function) map[string]map[int]bool {
+	if e, ok := vc.effVia[fn]; ok {
 		return e
 	}
 	if vc.effBusy[fn] {
-		return map[string]bool{}
+		return map[string]map[int]bool{}
 	}
 	vc.effBusy[fn] = true
-	eff := map[string]bool{}
+	eff := map[string]map[int]bool{}
+	add := func(key string, via int) {
+		if eff[key] == nil {
+			eff[key] = map[int]bool{}
+		}
+		eff[key][via] = true
+	}
 	if fn.Blocks == nil {
-		vc.effects[fn] = eff
+		delete(vc.effBusy, fn)
+		vc.effVia[fn] = eff
 		return eff
+	}
+	// origin of a pointer value: parameter index, -2 local allocation, -1 unknown
+	var origin func(v ssa.Value, depth int) int
+	origin = func(v ssa.Value, depth int) int {
+		if depth > 8 {
+			return -1
+		}
+		switch x := v.(type) {
+		case *ssa.Parameter:
+			for i, p := range fn.Params {
+				if p == x {
+					return i
+				}
+			}
+			return -1
+		case *ssa.Alloc:
+			return -2
+		case *ssa.FieldAddr:
+			return origin(x.X, depth+1)
+		case *ssa.IndexAddr:
+			return origin(x.X, depth+1)
+		case *ssa.ChangeType:
+			return origin(x.X, depth+1)
+		case *ssa.Phi:
+			res := -2
+			for _, e := range x.Edges {
+				o := origin(e, depth+1)
+				if o == -1 {
+					return -1
+				}
+				if o >= 0 {
+					if res >= 0 && res != o {
+						return -1
+					}
+					res = o
+				}
+			}
+			return res
+		case *ssa.Call:
+			// a fresh object returned by a repository constructor
+			if c := x.Call.StaticCallee(); c != nil {
+				if con := vc.contractOf(c); con != nil && len(con.Fresh) > 0 {
+					return -2
+				}
+			}
+			return -1
+		case *ssa.Extract:
+			if call, ok := x.Tuple.(*ssa.Call); ok {
+				if c := call.Call.StaticCallee(); c != nil && vc.returnsFresh(c, x.Index, 0) {
+					return -2
+				}
+			}
+			return -1
+		}
+		return -1
+	}
+	structKeys := func(t types.Type) []string {
+		pt, ok := t.Underlying().(*types.Pointer)
+		if !ok {
+			return nil
+		}
+		st, ok := pt.Elem().Underlying().(*types.Struct)
+		if !ok {
+			return nil
+		}
+		ss := vc.structSortOf(pt.Elem(), st)
+		var ks []string
+		for _, f := range ss.Fields {
+			ks = append(ks, "H$"+ss.Name+"$"+f.Name)
+		}
+		return ks
 	}
 	for _, b := range fn.Blocks {
 		for _, ins := range b.Instrs {
 			switch ins := ins.(type) {
 			case *ssa.Store:
-				if fa, ok := ins.Addr.(*ssa.FieldAddr); ok {
-					if _, local := fa.X.(*ssa.Alloc); local {
-						continue // object allocated by this function
-					}
-					if key, ok := vc.heapKeyOfFieldAddr(fa); ok {
-						eff[key] = true
-					}
-				} else if _, ok := ins.Addr.(*ssa.Alloc); ok {
+				if _, ok := ins.Addr.(*ssa.Global); ok {
+					add("G$"+ins.Addr.Name(), -1)
 					continue
-
-					// whole-struct store to an alloc: all fields
-					if st, ok := ins.Addr.Type().(*types.Pointer).Elem().Underlying().(*types.Struct); ok {
-						ss := vc.structSortOf(ins.Addr.Type().(*types.Pointer).Elem(), st)
-						for _, f := range ss.Fields {
-							eff["H$"+ss.Name+"$"+f.Name] = true
-						}
+				}
+				o := origin(ins.Addr, 0)
+				if o == -2 {
+					continue
+				}
+				root := rootOfAddr(ins.Addr)
+				if fa, ok := root.(*ssa.FieldAddr); ok {
+					if key, ok := vc.heapKeyOfFieldAddr(fa); ok {
+						add(key, o)
 					}
-				} else if _, ok := ins.Addr.(*ssa.IndexAddr); ok {
-					// element store: nested place; conservatively resolved by root
-					root := rootOfAddr(ins.Addr)
-					if fa, ok := root.(*ssa.FieldAddr); ok {
-						if _, local := fa.X.(*ssa.Alloc); local {
-							continue
-						}
-						if key, ok := vc.heapKeyOfFieldAddr(fa); ok {
-							eff[key] = true
-						}
-					}
-				} else if _, ok := ins.Addr.(*ssa.Global); ok {
-					eff["G$"+ins.Addr.Name()] = true
-				} else {
-					// store through an arbitrary pointer (parameter etc.)
-					if st, ok := ins.Addr.Type().(*types.Pointer).Elem().Underlying().(*types.Struct); ok {
-						ss := vc.structSortOf(ins.Addr.Type().(*types.Pointer).Elem(), st)
-						for _, f := range ss.Fields {
-							eff["H$"+ss.Name+"$"+f.Name] = true
-						}
-					}
+					continue
+				}
+				for _, k := range structKeys(ins.Addr.Type()) {
+					add(k, o)
 				}
 			case ssa.CallInstruction:
-				if callee := ins.Common().StaticCallee(); callee != nil {
-					if _, inRepo := vc.dirOf(callee); inRepo || callee.Parent() != nil {
-						for k := range vc.effectsOf(callee) {
-							eff[k] = true
+				callee := ins.Common().StaticCallee()
+				if callee == nil {
+					continue
+				}
+				if _, inRepo := vc.dirOf(callee); !inRepo && callee.Parent() == nil {
+					continue
+				}
+				args := ins.Common().Args
+				for key, vias := range vc.effectsVia(callee) {
+					for via := range vias {
+						if via < 0 || via >= len(args) {
+							add(key, -1)
+							continue
 						}
+						o := origin(args[via], 0)
+						if o == -2 {
+							continue
+						}
+						add(key, o)
 					}
 				}
 			}
 		}
 	}
 	delete(vc.effBusy, fn)
-	vc.effects[fn] = eff
+	vc.effVia[fn] = eff
 	return eff
+}
+
+// returnsFresh: result idx of fn is always a freshly allocated object (or nil).
+func (vc *VC) returnsFresh(fn *ssa.Function, idx int, depth int) bool {
+	if depth > 3 || fn.Blocks == nil {
+		return false
+	}
+	if _, inRepo := vc.dirOf(fn); !inRepo {
+		return false
+	}
+	for _, b := range fn.Blocks {
+		for _, ins := range b.Instrs {
+			ret, ok := ins.(*ssa.Return)
+			if !ok || idx >= len(ret.Results) {
+				continue
+			}
+			switch r := ret.Results[idx].(type) {
+			case *ssa.Alloc:
+			case *ssa.Const:
+				if r.Value != nil {
+					return false
+				}
+			default:
+				return false
+			}
+		}
+	}
+	return true
 }
 
 func rootOfAddr(v ssa.Value) ssa.Value {
